@@ -182,8 +182,10 @@ def run(ctx: core.Run):
     # the concrete model (Model/PixelSamples.lean) against the real functions code by code, against the real pipeline
     # on images holding every sample value (exact: bytes, 8-bit samples, float32 bits), and the search matrix over every
     # source kind x document mode x depth x PSD/PSB x compression (oracle independent of the model)
-    c07_samples.check_functions(ctx)
+    sample_tables = c07_samples.check_functions(ctx)
     c07_samples.check_concrete(ctx)
+    if sample_tables:
+        c07_samples.check_doc_depths(ctx, sample_tables, meta_of)
     c07_samples.search_matrix(ctx, classify_doc)
 
     ctx.rule = (
